@@ -27,11 +27,13 @@ const (
 	kYCbCr411
 	kYCbCr410
 	kAlpha16
+	kNYCbCrA444
+	kNYCbCrA420
 	nKinds
 )
 
 var kindNames = [...]string{"RGBA64", "NRGBA64", "RGBA", "NRGBA", "Gray", "Gray16", "CMYK", "Paletted", "Alpha",
-	"YCbCr444", "YCbCr422", "YCbCr420", "YCbCr440", "YCbCr411", "YCbCr410", "Alpha16"}
+	"YCbCr444", "YCbCr422", "YCbCr420", "YCbCr440", "YCbCr411", "YCbCr410", "Alpha16", "NYCbCrA444", "NYCbCrA420"}
 
 var ycbcrRatios = map[int]image.YCbCrSubsampleRatio{
 	kYCbCr444: image.YCbCrSubsampleRatio444, kYCbCr422: image.YCbCrSubsampleRatio422, kYCbCr420: image.YCbCrSubsampleRatio420,
@@ -76,6 +78,10 @@ func newParent(kind int, r image.Rectangle) image.Image {
 			pal[i] = color.NRGBA{uint8(i * 37), uint8(255 - i*29), uint8(i * i * 5), uint8(255 - (i%3)*100)}
 		}
 		return image.NewPaletted(r, pal)
+	case kNYCbCrA444:
+		return image.NewNYCbCrA(r, image.YCbCrSubsampleRatio444)
+	case kNYCbCrA420:
+		return image.NewNYCbCrA(r, image.YCbCrSubsampleRatio420)
 	default:
 		return image.NewYCbCr(r, ycbcrRatios[kind])
 	}
@@ -107,6 +113,8 @@ func planes(img image.Image) [][]uint8 {
 		return [][]uint8{p.Pix}
 	case *image.YCbCr:
 		return [][]uint8{p.Y, p.Cb, p.Cr}
+	case *image.NYCbCrA:
+		return [][]uint8{p.Y, p.Cb, p.Cr, p.A}
 	}
 	panic(fmt.Sprintf("planes: unexpected image type %T", img))
 }
@@ -151,7 +159,7 @@ func drawRect(t *tape.Tape, maxSide int) image.Rectangle {
 // that is larger by the given margins; the parent is filled with drawn bytes
 // (extremes included), so pixels outside rect act as sentinels.
 func makeImg(t *tape.Tape, kind int, rect image.Rectangle, sub bool) *Img {
-	if kind >= kYCbCr444 && kind <= kYCbCr410 && (rect.Min.X < 3 || rect.Min.Y < 3) {
+	if ((kind >= kYCbCr444 && kind <= kYCbCr410) || kind == kNYCbCrA444 || kind == kNYCbCrA420) && (rect.Min.X < 3 || rect.Min.Y < 3) {
 		// image.YCbCr's chroma offset arithmetic (integer division truncating
 		// towards zero) is only right for non-negative coordinates: the standard
 		// library itself panics or mis-addresses below zero, so subsampled sources
